@@ -577,3 +577,66 @@ Proof.
 Qed.
 
 End Proofs.
+
+(* ------------------------------------------------------------------------------------------ *)
+(* witnesses: the two defects of the pinned tree, and non-vacuity                               *)
+(* ------------------------------------------------------------------------------------------ *)
+Definition toy_hmac (s c : N) : N := s * 1000 + c.
+
+Definition p1 (x : N) (tun : bool) : option hs := Some {| h_cid := x; h_new := false; h_resp := None; h_tunnel := tun |}.
+Definition p2 (x r : N) (tun : bool) : option hs := Some {| h_cid := x; h_new := false; h_resp := Some r; h_tunnel := tun |}.
+
+(* connection 1 is A's control channel; connection 2 authenticates as A with connection_type "tunnel";
+   then a phase-1 request (answered with a challenge, not Success) on connection 2 takes over A's control slot *)
+Definition reinstall_history : list ev :=
+  [ERegister; ERegister; EOpen 1 0; EOpen 2 1;
+   EMsg 1 (p1 1 false); EMsg 1 (p2 1 (toy_hmac 1 1) false);
+   EMsg 2 (p1 1 true); EMsg 2 (p2 1 (toy_hmac 1 2) true)].
+
+Lemma pinned_nonsuccess_reinstall_refuted :
+  exists es k m,
+    let s := run toy_hmac 5 20 pinned_variant init es in
+    not_success (snd (handle toy_hmac 5 20 pinned_variant s k m)) /\
+    index s 1 = Some 1 /\ index (fst (handle toy_hmac 5 20 pinned_variant s k m)) 1 = Some 2.
+Proof.
+  exists reinstall_history, 2, (p1 2 false). cbv zeta. split; [|split]; vm_compute; reflexivity.
+Qed.
+
+(* a client deleted through the anonymous service keeps its stored credentials and still authenticates *)
+Lemma pinned_anon_delete_refuted :
+  exists es k x,
+    clients (run toy_hmac 5 20 current_variant init [ERegister; EDelAnon x]) x = None /\
+    authed_as (run toy_hmac 5 20 pinned_variant init (ERegister :: EDelAnon x :: es)) k x.
+Proof.
+  exists [EOpen 1 0; EMsg 1 (p1 1 false); EMsg 1 (p2 1 (toy_hmac 1 1) false)], 1, 1.
+  split; [vm_compute; reflexivity|].
+  unfold authed_as. eexists. eexists. split; [vm_compute; reflexivity|].
+  split; [vm_compute; reflexivity|]. split; vm_compute; reflexivity.
+Qed.
+
+Lemma anon_delete_removes_credentials hmac mf pb s x :
+  clients (fst (step hmac mf pb current_variant s (EDelAnon x))) x = None.
+Proof. cbn. apply upd_same. Qed.
+
+(* non-vacuity: a reachable, well-formed state in which a connection is authenticated through a proof step,
+   the registry points at it, and a later failed attempt from a banned address changes nothing *)
+Lemma premises_satisfiable :
+  let es := [ERegister; ERegister; EOpen 1 0; EOpen 2 1; EMsg 1 (p1 1 false); EMsg 1 (p2 1 (toy_hmac 1 1) false)] in
+  let s := run toy_hmac 5 20 current_variant init es in
+  wf s /\ authed_as s 1 1 /\ index s 1 = Some 1 /\
+  proof_step toy_hmac (run toy_hmac 5 20 current_variant init (firstn 5 es)) 1
+             {| h_cid := 1; h_new := false; h_resp := Some (toy_hmac 1 1); h_tunnel := false |} 1 /\
+  not_success (snd (handle toy_hmac 5 20 current_variant s 2 (p2 1 7 false))).
+Proof.
+  cbv zeta. split; [apply run_wf; apply init_wf|].
+  split.
+  { unfold authed_as. eexists. eexists. split; [vm_compute; reflexivity|].
+    split; [vm_compute; reflexivity|]. split; vm_compute; reflexivity. }
+  split; [vm_compute; reflexivity|].
+  split.
+  { unfold proof_step. eexists. split; [vm_compute; reflexivity|].
+    split; [vm_compute; reflexivity|]. split; [vm_compute; reflexivity|]. right.
+    split; [reflexivity|]. eexists. eexists. split; [vm_compute; reflexivity|].
+    split; [vm_compute; reflexivity|]. split; vm_compute; reflexivity. }
+  vm_compute. reflexivity.
+Qed.
